@@ -177,7 +177,7 @@ func (ex *Explorer) finish(c *Ctx, outcome string) {
 var verbose = os.Getenv("VERIF_VERBOSE") != ""
 
 func (ex *Explorer) worker(id int) {
-	c := &Ctx{ex: ex, prog: ex.prog, intrinsics: map[string]func(*Ctx, []Value) Value{}, harness: ex.spec.Pkg + "." + ex.spec.Func}
+	c := &Ctx{ex: ex, prog: ex.prog, fnInfos: map[*ssa.Function]*fnInfo{}, intrinsics: map[string]func(*Ctx, []Value) Value{}, harness: ex.spec.Pkg + "." + ex.spec.Func}
 	c.solver = NewSolver(solverBin, solverArgs...)
 	defer func() {
 		ex.mu.Lock()
@@ -259,7 +259,7 @@ func (c *Ctx) runPath(p []int) (outcome string) {
 					}
 				case *goPanic:
 					outcome = "completed"
-					c.curPos = e.pos
+					c.posOverride = e.pos
 					if strings.Contains(e.pos, "zz_verif_") && !strings.HasPrefix(e.what, "verifPanic:") {
 						// a panic raised by harness code itself (an unmodelled fake method or a harness bug)
 						c.incomplete = append(c.incomplete, "UNMODELLED/harness panic: "+e.what+" at "+e.pos)
@@ -283,7 +283,7 @@ func (c *Ctx) runPath(p []int) (outcome string) {
 						}()
 					} else {
 						outcome = "inconclusive"
-						c.incomplete = append(c.incomplete, "UNWIND-EXCEEDED: interpreter step limit at "+c.curPos)
+						c.incomplete = append(c.incomplete, "UNWIND-EXCEEDED: interpreter step limit at "+c.cp())
 					}
 				case engineErr:
 					c.ex.mu.Lock()
@@ -292,7 +292,7 @@ func (c *Ctx) runPath(p []int) (outcome string) {
 					outcome = "engine-error"
 				default:
 					c.ex.mu.Lock()
-					c.ex.engineErrs = append(c.ex.engineErrs, fmt.Sprintf("internal panic: %v at %s\n%s", r, c.curPos, debug.Stack()))
+					c.ex.engineErrs = append(c.ex.engineErrs, fmt.Sprintf("internal panic: %v at %s\n%s", r, c.cp(), debug.Stack()))
 					c.ex.mu.Unlock()
 					outcome = "engine-error"
 				}
